@@ -478,3 +478,22 @@ contract(LAN + "_Packet.decode#truncated",
          bind={"data": "data"},
          raises={LAN + "ProtocolError": {}},
          ensures={"a_truncated_packet_is_never_accepted": "False"})
+
+
+contract(LAN + "_Packet.decode#signature_tamper",
+         params={"device_id": "int[0,18446744073709551615]", "ts": "bytes[8]", "frame": "bytes", "i": "int[0,15]", "v": "byte"},
+         requires=["len(frame) <= 65000", "v != v2_packet(device_id, ts, frame)[v2_len(len(frame)) - 16 + i]"],
+         let={"p": "v2_packet(device_id, ts, frame)",
+              "data": "v2_packet(device_id, ts, frame)[:v2_len(len(frame)) - 16 + i] + bytes([v]) + v2_packet(device_id, ts, frame)[v2_len(len(frame)) - 15 + i:]"},
+         bind={"data": "data"},
+         raises={LAN + "ProtocolError": {}},
+         ensures={"an_altered_signature_is_never_accepted": "False"},
+         notes="C03: altering any byte of the signature is rejected outright (no cryptographic assumption needed)")
+
+contract(LAN + "_Packet.decode#marker_tamper",
+         params={"device_id": "int[0,18446744073709551615]", "ts": "bytes[8]", "frame": "bytes", "i": "int[0,1]", "v": "byte"},
+         requires=["len(frame) <= 65000", "v != 0x5a"],
+         let={"data": "v2_packet(device_id, ts, frame)[:i] + bytes([v]) + v2_packet(device_id, ts, frame)[i + 1:]"},
+         bind={"data": "data"},
+         raises={LAN + "ProtocolError": {}},
+         ensures={"an_altered_start_marker_is_never_accepted": "False"})
